@@ -486,8 +486,8 @@ where
 	F: Fn(usize) -> Result<(), Fail> + Sync,
 	P: Fn(usize) -> Value,
 {
-	if ctx.stop.load(Ordering::Relaxed) {
-		return None;
+	if ctx.stop.load(Ordering::Relaxed) || std::env::var("PV_ONLY_DNA").is_ok() {
+		return None; // PV_ONLY_DNA: debugging aid, runs only the proptest-driven parts
 	}
 	let next = std::sync::atomic::AtomicUsize::new(0);
 	let found: Mutex<Option<(usize, Fail)>> = Mutex::new(None);
